@@ -152,8 +152,12 @@ pub fn gen_system(t: &mut Tape, cfg: &SysCfg) -> SysCase {
     }
     // ---- states in declaration order; init may only mention earlier states, literals (and inputs)
     let mut states: Vec<(ExprRef, Option<ExprRef>)> = vec![];
+    // states that are re-loaded with their (non-literal) init expression every cycle: init == next
+    let mut reload: Vec<bool> = vec![];
     for (k, tpe) in state_types.iter().enumerate() {
-        let init = match t.weighted(if cfg.mc_bias { &[1, 7, 2] } else { &[3, 4, 3] }) {
+        let is_reload = (k > 0 || init_reads_inputs) && t.chance(24);
+        reload.push(is_reload);
+        let init = match if is_reload { 2 } else { t.weighted(if cfg.mc_bias { &[1, 7, 2] } else { &[3, 4, 3] }) } {
             0 => None,
             1 => Some(match tpe {
                 // literal / constant array
@@ -168,7 +172,7 @@ pub fn gen_system(t: &mut Tape, cfg: &SysCfg) -> SysCase {
                 }
             }),
             _ => {
-                let steps = t.below(cfg.expr_steps + 1);
+                let steps = if is_reload { 1 + t.below(cfg.expr_steps) } else { t.below(cfg.expr_steps + 1) };
                 Some(g.of_type(&mut ctx, t, *tpe, steps))
             }
         };
@@ -189,10 +193,14 @@ pub fn gen_system(t: &mut Tape, cfg: &SysCfg) -> SysCase {
         sys.add_input(&ctx, *i);
     }
     // ---- next functions
-    for (sym, init) in states.iter() {
+    for (k, (sym, init)) in states.iter().enumerate() {
         let tpe = sym.get_type(&ctx);
+        if reload[k] {
+            sys.add_state(&ctx, State { symbol: *sym, init: *init, next: *init });
+            continue;
+        }
         // with mc_bias the simplest (all-zero tape) choice is the counter-like update
-        let next_choice = if cfg.mc_bias { [3usize, 1, 2, 0][t.weighted(&[8, 4, 1, 1])] } else { t.weighted(&[1, 6, 1, 4]) };
+        let next_choice = if cfg.mc_bias { [3usize, 1, 2, 0, 4][t.weighted(&[8, 4, 1, 1, 2])] } else { t.weighted(&[1, 6, 1, 4, 1]) };
         let next = match next_choice {
             0 => None,
             1 => {
@@ -200,6 +208,9 @@ pub fn gen_system(t: &mut Tape, cfg: &SysCfg) -> SysCase {
                 Some(g.of_type(&mut ctx, t, tpe, steps))
             }
             2 => Some(*sym), // constant state
+            // re-loaded with its init expression every cycle (the identical reference)
+            4 if init.is_some() => *init,
+            4 => Some(*sym),
             _ => match tpe {
                 // counter-like updates: long paths and large diameters
                 Type::BV(w) => {
